@@ -319,6 +319,14 @@ namespace ip {
 			// the connection attempt is abandoned. A SYN+ACK that arrives
 			// later is ignored
 			m_channel.reset();
+			// ... also after the socket has started another connection: the
+			// abandoned attempt's route must not lead into it, so it keeps the
+			// old (now detached) forwarder and the socket gets a new one
+			if (m_forwarder)
+			{
+				m_forwarder->reset();
+				m_forwarder = std::make_shared<aux::sink_forwarder>(this);
+			}
 		}
 	}
 
